@@ -232,3 +232,27 @@ DESIGN_REF = "DESIGN.md section 4 C15, section 3.1"
 LEVEL_NOTE = ("Trusted: Coq kernel+VM, the Python->Gallina translator, the hand model of rust/src/helpers.rs and Spec/Cal.v as a model of CPython's datetime "
               "(both validated by correspondence every run), extraction+driver (cross-checked with vm_compute).")
 TECHNIQUE = "Coq proof (lia + finite reflection lifted by 400-year periodicity) over translated code; differential correspondence for hand models"
+
+
+# ---- specification side tied to CPython's own source (appended; supersedes the Spec/Cal.v sentences above) ----
+# coq/Gen/StdlibCal.v is the machine translation of CPython's pure-Python reference implementation `_pydatetime.py`
+# (tools/vlib/gens/g11_stdlib_cal.py, regenerated on every run from the file the staged interpreter imports), and
+# Props/C15.v spec_is_stdlib_* prove Spec/Cal.v equal to it, universally (no bound on year / ordinal).
+_SPEC_OLD = "CPython datetime/calendar are the specification side, modelled in coq/Spec/Cal.v and validated by the cal_* streams"
+_SPEC_NEW = ("Spec/Cal.v (the specification side) is PROVED equal to the translation of CPython's pure-Python reference implementation "
+             "_pydatetime.py (Gen/StdlibCal.v, regenerated from the staged interpreter's stdlib on every run; theorems spec_is_stdlib_*: "
+             "_is_leap, _days_before_year, _days_in_month, _days_before_month, _ymd2ord, _ord2ymd, _isoweek1monday, _isoweek_to_gregorian, "
+             "_check_date_fields, date.toordinal/weekday/isoweekday/isocalendar). What remains trusted on the spec side: the C accelerator "
+             "_datetime (the module `datetime` actually imports) agrees with _pydatetime - still covered by the exhaustive cal-spec "
+             "correspondence stream against the running interpreter; by hand in the translation: a date object is the record of its slots "
+             "_year/_month/_day, _IsoCalendarDate(y, w, d) is the triple, operator.index is the identity on ints, AssertionError is "
+             "represented by E_Exception, the module-level loop filling _DAYS_BEFORE_MONTH is a recognised-shape template "
+             "(its result is pinned, inside Coq, to the interpreter's run-time table)")
+TRUSTED = [_SPEC_NEW if t == _SPEC_OLD else t for t in TRUSTED] + ([] if _SPEC_OLD in TRUSTED else [_SPEC_NEW])
+LEVEL_NOTE = (LEVEL_NOTE.replace("and Spec/Cal.v as a model of CPython's datetime (both validated by correspondence every run)",
+                                 "(validated by correspondence every run)")
+              + " Spec/Cal.v is no longer trusted as a hand model of CPython: it is proved equal (spec_is_stdlib_*) to the translation of "
+                "CPython's _pydatetime.py, regenerated from the staged interpreter's standard library on every run; what remains trusted on the "
+                "spec side is that the C accelerator _datetime agrees with _pydatetime (covered by the exhaustive cal-spec correspondence).")
+LEVEL_TEXT = (LEVEL_TEXT + " The specification Spec/Cal.v itself is proved equal, for every year and every ordinal, to the translation of "
+              "CPython's own pure-Python calendar source (_pydatetime.py).")
